@@ -129,6 +129,8 @@ func checkC20(p *Prog, c *Check) {
 	}
 
 	c20Producer(p, c)
+	// the membership lookup every key passes through before it is published
+	linearSearchRule(p, c, "C20-R4", "keyper/database.GetKeyperIndex", "$p1")
 }
 
 // retKeyByCall names a return by the last call in its block (stable under line moves).
